@@ -64,7 +64,8 @@ type FragOpts struct {
 	FirstSampleFlags bool // use first_sample_flags when only the first sample of a run differs from the default
 	// Base: 0 default-base-is-moof, 1 explicit base_data_offset (= absolute moof start),
 	// 2 neither flag ("legacy": first traf relative to moof start, any later traf relative to the
-	// end of the data of the preceding traf).
+	// end of the data of the preceding traf), 3 explicit base_data_offset that is NOT the moof start (half of it): the
+	// trun data offsets count from that position.
 	Base              int
 	TrunVersion       int  // 0 or 1; 1 is used regardless when a run has a negative Cto
 	TfdtVersion       int  // 0 or 1; 1 is used regardless when the time does not fit 32 bits
@@ -109,7 +110,10 @@ type FileLayout struct {
 	Mfra         bool // mfra (tfra per track + mfro) at the end
 	// MfraFirstTrackOnly restricts the mfra to one tfra for tracks[0].
 	MfraFirstTrackOnly bool
-	SeqStart           uint32 // mfhd sequence_number of the first fragment
+	// MfraLenSizes: the three 2-bit length_size_of_{traf,trun,sample}_num fields of every tfra (bytes minus 1 of the
+	// traf / trun / sample numbers of its entries), traf in bits 5-4, trun in bits 3-2, sample in bits 1-0
+	MfraLenSizes int    `json:",omitempty"`
+	SeqStart     uint32 // mfhd sequence_number of the first fragment
 }
 
 // BoxInfo locates a box in the concatenated file.
